@@ -193,6 +193,7 @@ def mknode(name, ret, **kw):
         if ctl is not None and getattr(ctl, "slow", 0):
             time.sleep(ctl.slow)  # uncontrolled runs with node bodies that take real time
         if ctl is not None and name in ctl.fails:
+            ctl.ev("BOOM", name)  # the node's function raises now
             raise NodeBoom(name)
         return ret(*a, **k) if callable(ret) else ret
 
